@@ -172,6 +172,9 @@ struct World {
     configured: u8,
     files: [FileState; 3],
     inc: IncState,
+    /// The configured zone-file paths are symbolic links into `real/`; edits
+    /// rewrite the link's target in place.
+    symlinked: bool,
 }
 
 /// Reference model: per zone, None = not configured; Some(None) = configured
@@ -229,11 +232,11 @@ fn expected_obs(model: &Model, probe: &str) -> Obs {
 }
 
 impl World {
-    fn new(dir: PathBuf) -> World {
+    fn new(dir: PathBuf, symlinked: bool) -> World {
         let _ = std::fs::remove_dir_all(&dir);
         std::fs::create_dir_all(&dir).expect("scratch dir");
         let daemon = verif_access::Daemon { config_path: dir.join("quandary.toml"), server: Arc::new(Server::new(Arc::new(Catalog::new()))), catalog: Arc::new(Catalog::new()) };
-        World { dir, daemon, mtime_counter: 0, configured: 0, files: [FileState::Missing; 3], inc: IncState::Missing }
+        World { dir, daemon, mtime_counter: 0, configured: 0, files: [FileState::Missing; 3], inc: IncState::Missing, symlinked }
     }
 
     fn config_path(&self) -> PathBuf {
@@ -254,7 +257,20 @@ impl World {
     }
 
     fn write_file(&mut self, z: usize, st: FileState) {
-        let p = self.dir.join(FILES[z]);
+        let p = if self.symlinked {
+            // quandary.toml names dir/<file>, a link to real/<file>; only the
+            // target is ever written or removed (a removed target leaves a
+            // dangling link).
+            let real = self.dir.join("real");
+            std::fs::create_dir_all(&real).expect("real dir");
+            let link = self.dir.join(FILES[z]);
+            if std::fs::symlink_metadata(&link).is_err() {
+                std::os::unix::fs::symlink(Path::new("real").join(FILES[z]), &link).expect("symlink");
+            }
+            real.join(FILES[z])
+        } else {
+            self.dir.join(FILES[z])
+        };
         match file_text(z, st) {
             None => {
                 let _ = std::fs::remove_file(&p);
@@ -362,9 +378,9 @@ struct Totals {
 }
 
 /// Runs one history; returns false on violation.
-fn run_history(l: &mut Local, dir: &Path, hist: &[Event], totals: &Totals, states: &mut BTreeSet<(u8, [FileState; 3], IncState, Model)>) {
-    let mut w = World::new(dir.to_path_buf());
-    let case = || json!({"history": hist.iter().map(event_json).collect::<Vec<_>>(), "history_idx": hist.iter().map(event_index).collect::<Vec<_>>()});
+fn run_history(l: &mut Local, dir: &Path, symlinked: bool, hist: &[Event], totals: &Totals, states: &mut BTreeSet<(u8, [FileState; 3], IncState, Model)>) {
+    let mut w = World::new(dir.to_path_buf(), symlinked);
+    let case = || json!({"history": hist.iter().map(event_json).collect::<Vec<_>>(), "history_idx": hist.iter().map(event_index).collect::<Vec<_>>(), "zone_files_are_symlinks": symlinked});
     if let Err(e) = w.start() {
         l.violation("initial-load-failed", json!({"error": e, "case": case()}));
         return;
@@ -426,14 +442,15 @@ pub fn run(ctx: Ctx) -> ! {
     let root = scratch_root();
     let totals = Totals { transitions: AtomicU64::new(0), histories: AtomicU64::new(0) };
     let all_states = std::sync::Mutex::new(BTreeSet::new());
-    let rule = "every sequence of <= d events (d = 4 quick, 5 thorough) over {set configured subset of {p., c.p., s.} (8), set one zone file to missing / valid v1 / valid v2 / syntax error / validation error / valid with a validation warning (v3) / validation error together with a warning / valid but for one record of another class (24)}, a reload after each, executed from scratch on a real directory through the daemon's config::load_from_path -> zones::reload -> Server::set_catalog (no state merging: entry metadata - path, mtime - is hidden state); after every step 6 probe names are queried through Server::handle_message and compared with the reference model (longest configured suffix; new data if the file loads and validates, else this zone's previous data, else SERVFAIL; unconfigured => not served). plus the include family: s.zone with its name server's address in an $INCLUDEd file, over {included file good / broken / missing, s.zone v1 / v2 with the include, v2 without, missing, p.zone valid / syntax error, configure {p.} / {p., s.}} (11), every sequence of <= d2 events (3 quick, 5 thorough) from the empty start and from the start where s. is loaded through a good include; states = distinct (configuration, files, included file, model) states reached, transitions = reload steps executed, traces_validated_against_impl = histories executed";
+    let rule = "every sequence of <= d events (d = 4 quick, 5 thorough) over {set configured subset of {p., c.p., s.} (8), set one zone file to missing / valid v1 / valid v2 / syntax error / validation error / valid with a validation warning (v3) / validation error together with a warning / valid but for one record of another class (24)}, a reload after each, executed from scratch on a real directory through the daemon's config::load_from_path -> zones::reload -> Server::set_catalog (no state merging: entry metadata - path, mtime - is hidden state); after every step 6 probe names are queried through Server::handle_message and compared with the reference model (longest configured suffix; new data if the file loads and validates, else this zone's previous data, else SERVFAIL; unconfigured => not served). plus the include family: s.zone with its name server's address in an $INCLUDEd file, over {included file good / broken / missing, s.zone v1 / v2 with the include, v2 without, missing, p.zone valid / syntax error, configure {p.} / {p., s.}} (11), every sequence of <= d2 events (3 quick, 5 thorough) from the empty start and from the start where s. is loaded through a good include, with plain zone files and with symlinked ones; plus the main alphabet at depth d - 1 with every configured path a symbolic link whose target is rewritten in place; states = distinct (configuration, files, included file, model) states reached, transitions = reload steps executed, traces_validated_against_impl = histories executed";
     if let Some(case) = ctx.replay_case() {
         let idx: Vec<usize> = case["history_idx"].as_array().or_else(|| case["case"]["history_idx"].as_array()).expect("history_idx").iter().map(|v| v.as_u64().unwrap() as usize).collect();
         let all = all_events();
         let hist: Vec<Event> = idx.iter().map(|i| all[*i]).collect();
         let mut l = ctx.local();
         let mut st = BTreeSet::new();
-        run_history(&mut l, &root.join("replay"), &hist, &totals, &mut st);
+        let symlinked = case["zone_files_are_symlinks"].as_bool().or_else(|| case["case"]["zone_files_are_symlinks"].as_bool()).unwrap_or(false);
+        run_history(&mut l, &root.join("replay"), symlinked, &hist, &totals, &mut st);
         drop(l);
         let _ = std::fs::remove_dir_all(&root);
         ctx.finish("model_checking", rule, false);
@@ -457,7 +474,7 @@ pub fn run(ctx: Ctx) -> ! {
         loop {
             let mut hist: Vec<Event> = prefix.iter().map(|i| evs[*i]).collect();
             hist.extend(idx.iter().map(|i| evs[*i]));
-            run_history(l, &dir, &hist, &totals, &mut states);
+            run_history(l, &dir, false, &hist, &totals, &mut states);
             let mut k = rest;
             let mut done = true;
             while k > 0 {
@@ -498,8 +515,9 @@ pub fn run(ctx: Ctx) -> ! {
             let mut hist: Vec<Event> = starts[*si].to_vec();
             hist.push(ievs[*a]);
             hist.extend(idx.iter().map(|i| ievs[*i]));
-            run_history(l, &dir, &hist, &totals, &mut states);
-            inc_histories.fetch_add(1, Ordering::Relaxed);
+            run_history(l, &dir, false, &hist, &totals, &mut states);
+            run_history(l, &dir, true, &hist, &totals, &mut states);
+            inc_histories.fetch_add(2, Ordering::Relaxed);
             let mut k = rest;
             let mut done = true;
             while k > 0 {
@@ -518,6 +536,39 @@ pub fn run(ctx: Ctx) -> ! {
         let _ = std::fs::remove_dir_all(&dir);
         all_states.lock().unwrap().extend(states);
     });
+    // ---- the main alphabet once more, one event shallower, with every zone
+    // file reached through a symbolic link whose target is edited in place.
+    let sdepth = depth - 1;
+    let sym_histories = AtomicU64::new(0);
+    ctx.par_for_each(&prefixes, |l, prefix| {
+        let dir = root.join(format!("s{}", counter.fetch_add(1, Ordering::Relaxed)));
+        let mut states = BTreeSet::new();
+        let rest = sdepth - 2;
+        let mut idx = vec![0usize; rest];
+        loop {
+            let mut hist: Vec<Event> = prefix.iter().map(|i| evs[*i]).collect();
+            hist.extend(idx.iter().map(|i| evs[*i]));
+            run_history(l, &dir, true, &hist, &totals, &mut states);
+            sym_histories.fetch_add(1, Ordering::Relaxed);
+            let mut k = rest;
+            let mut done = true;
+            while k > 0 {
+                k -= 1;
+                idx[k] += 1;
+                if idx[k] < evs.len() {
+                    done = false;
+                    break;
+                }
+                idx[k] = 0;
+            }
+            if done {
+                break;
+            }
+        }
+        let _ = std::fs::remove_dir_all(&dir);
+        all_states.lock().unwrap().extend(states);
+    });
+    ctx.set_extra("symlink_family", json!({"depth": sdepth, "histories": sym_histories.load(Ordering::Relaxed)}));
     ctx.set_extra("include_family", json!({"alphabet_size": ievs.len(), "depth_after_start": d2, "starting_points": starts.len(), "histories": inc_histories.load(Ordering::Relaxed)}));
     let _ = std::fs::remove_dir_all(&root);
     ctx.set_extra("states", json!(all_states.lock().unwrap().len()));
